@@ -236,6 +236,20 @@ pub fn install_panic_hook() {
         } else {
             "<non-string panic>".to_string()
         };
+        // the capped layout solver (vendor/cassowary): name the trippy render module the split
+        // was requested from, so that the recorded finding is keyed on its call site
+        let msg = if msg.starts_with("failed to split") && msg.contains("pivot cap") {
+            let bt = std::backtrace::Backtrace::force_capture().to_string();
+            let module = bt
+                .split("trippy_tui::frontend::render::")
+                .nth(1)
+                .and_then(|rest| rest.split("::").next())
+                .unwrap_or("unknown")
+                .to_string();
+            format!("layout solver cycling under render::{module}")
+        } else {
+            msg
+        };
         let quiet = QUIET.try_with(std::cell::Cell::get).unwrap_or(false);
         let _ = LAST_PANIC.try_with(|p| *p.borrow_mut() = Some(format!("{msg} @ {loc}")));
         if !quiet {
@@ -302,6 +316,20 @@ pub struct Pbt<T: 'static> {
 /// Cases currently being executed by shards of a watched sub-check: (start, case as JSON).
 pub static IN_FLIGHT: Mutex<Vec<Option<(Instant, String)>>> = Mutex::new(Vec::new());
 
+/// Free-text progress notes of watched cases, by the thread running the case (diagnosis of a
+/// stuck case: which step it was in).
+pub static PROGRESS: Mutex<Vec<(std::thread::ThreadId, String)>> = Mutex::new(Vec::new());
+
+pub fn note_progress(s: String) {
+    let id = std::thread::current().id();
+    let mut g = PROGRESS.lock().unwrap();
+    if let Some(e) = g.iter_mut().find(|e| e.0 == id) {
+        e.1 = s;
+    } else {
+        g.push((id, s));
+    }
+}
+
 /// Seconds after which a watched case is declared stuck (0 = sub-check not watched).
 pub static WATCH_S: AtomicU64 = AtomicU64::new(0);
 
@@ -348,6 +376,7 @@ where
                     let strat = (self.strat)();
                     let failed = std::cell::Cell::new(false);
                     let last_fail: RefCell<Option<Fail>> = RefCell::new(None);
+                    let known: Vec<KnownFinding> = load_known(ctx).findings.into_iter().filter(|k| k.property == ctx.prop && k.status == "open").collect();
                     let res = runner.run(&strat, |v| {
                         if stop.load(Ordering::Relaxed) && !failed.get() {
                             // another shard already failed: finish quickly
@@ -369,6 +398,24 @@ where
                                 *slot = None;
                             }
                         }
+                        // a recorded (open) finding is tolerated in-target so that the search goes
+                        // on behind it: reported as KNOWN-FINDING, counted, the case is excluded
+                        let r = match r {
+                            Err(f) if known.iter().any(|k| k.sig == f.sig) => {
+                                let k = known.iter().find(|k| k.sig == f.sig).unwrap();
+                                let line = format!("KNOWN-FINDING: property={} {} [{}]", ctx.prop, k.what, k.sig);
+                                let mut g = rep.inner.lock().unwrap();
+                                if !g.known_hits.contains(&line) {
+                                    g.known_hits.push(line);
+                                }
+                                *g.excluded.entry(format!("{}/recorded finding hit: {}", self.name, k.sig)).or_insert(0) += 1;
+                                if std::env::var_os("VERIF_PROGRESS").is_some() {
+                                    eprintln!("recorded finding hit in {}: {}", self.name, f.msg);
+                                }
+                                return Ok(());
+                            }
+                            other => other,
+                        };
                         if !failed.get() {
                             if r.is_ok() {
                                 evals.fetch_add(1, Ordering::Relaxed);
